@@ -220,6 +220,10 @@ func run(c *fw.Ctx, idx int) {
 		identicalRepinCase(c, idx)
 		return
 	}
+	if idx < 3*ntr {
+		sizeFaultQuiesceCase(c, idx)
+		return
+	}
 	if idx%4 == 3 {
 		multiReplica(c, idx)
 		return
